@@ -85,6 +85,24 @@ fn elect2_accepting_side_elects_exactly_one() {
     kani::cover!(a.connection_id == b.connection_id);
 }
 
+/// N = 2: the initiating side never resolves a nonce tie (legacy / repeated nonce) on its own: it keeps every tied outgoing
+/// connection alive until the accepting side's decision arrives (otherwise the two ends could keep different connections)
+#[kani::proof]
+#[kani::unwind(4)]
+fn elect2_initiator_keeps_ties_alive() {
+    let sel: u8 = kani::any();
+    let (me, peer) = names(sel);
+    let mut a = cand(1);
+    let mut b = cand(2);
+    a.is_server = false;
+    b.is_server = false;
+    kani::assume(a.connection_id == b.connection_id);
+    let r = elect_sessions(me, peer, vec![a, b]);
+    assert!(r.len() == 2);
+    kani::cover!(a.connection_id.is_none());
+    kani::cover!(a.connection_id.is_some());
+}
+
 /// N = 3: non-empty subset, independent of the order (all six permutations via one rotation and one swap)
 #[kani::proof]
 #[kani::unwind(5)]
